@@ -33,25 +33,27 @@ VARIABLES authed,                    \* the client authenticated
           x11H, agentH, tcpH,        \* Transport._x11_handler / _forward_agent_handler / _tcp_handler is not None
           x11Req, agentReq, fwd,     \* ghosts (statement level)
           hadFwd,                    \* ghost: the forwards granted at some time (separates "never enabled" from "cancelled")
+          refusedLast,               \* ghost: the client's most recent forwarding operation (request or cancel) was a request
+                                     \* the server refused (a refusal enables nothing, whatever was granted or cancelled before it)
           last                       \* the last step and what the client answered
-vars == <<authed, chan, x11H, agentH, tcpH, x11Req, agentReq, fwd, hadFwd, last>>
+vars == <<authed, chan, x11H, agentH, tcpH, x11Req, agentReq, fwd, hadFwd, refusedLast, last>>
 
 NoReply == "none"
 Obs(op, arg, flag, reply, accepted) == [op |-> op, arg |-> arg, flag |-> flag, reply |-> reply, accepted |-> accepted]
 
 Init == /\ authed = FALSE /\ chan = FALSE
         /\ x11H = FALSE /\ agentH = FALSE /\ tcpH = FALSE
-        /\ x11Req = FALSE /\ agentReq = FALSE /\ fwd = {} /\ hadFwd = {}
+        /\ x11Req = FALSE /\ agentReq = FALSE /\ fwd = {} /\ hadFwd = {} /\ refusedLast = FALSE
         /\ last = Obs("init", "", FALSE, NoReply, FALSE)
 
 (* ---------------- client operations (user thread) ---------------- *)
 Authenticate == /\ ~authed /\ authed' = TRUE
                 /\ last' = Obs("auth", "", FALSE, NoReply, FALSE)
-                /\ UNCHANGED <<chan, x11H, agentH, tcpH, x11Req, agentReq, fwd, hadFwd>>
+                /\ UNCHANGED <<chan, x11H, agentH, tcpH, x11Req, agentReq, fwd, hadFwd, refusedLast>>
 
 OpenSession == /\ authed /\ chan' = TRUE
                /\ last' = Obs("open_session", "", FALSE, NoReply, FALSE)
-               /\ UNCHANGED <<authed, x11H, agentH, tcpH, x11Req, agentReq, fwd, hadFwd>>
+               /\ UNCHANGED <<authed, x11H, agentH, tcpH, x11Req, agentReq, fwd, hadFwd, refusedLast>>
 
 \* Channel.request_x11: x11-req with want_reply; the handler is installed only after the server's
 \* CHANNEL_SUCCESS; a CHANNEL_FAILURE closes the channel (Channel._request_failed) and raises
@@ -61,22 +63,25 @@ RequestX11(granted) ==
   /\ x11H' = (x11H \/ granted)
   /\ chan' = granted
   /\ last' = Obs("x11", "", granted, NoReply, FALSE)
-  /\ UNCHANGED <<authed, agentH, tcpH, agentReq, fwd, hadFwd>>
+  /\ UNCHANGED <<authed, agentH, tcpH, agentReq, fwd, hadFwd, refusedLast>>
 
 \* Channel.request_forward_agent: no reply is asked for; the handler is installed at once
 RequestAgent ==
   /\ chan
   /\ agentReq' = TRUE /\ agentH' = TRUE
   /\ last' = Obs("agent", "", FALSE, NoReply, FALSE)
-  /\ UNCHANGED <<authed, chan, x11H, tcpH, x11Req, fwd, hadFwd>>
+  /\ UNCHANGED <<authed, chan, x11H, tcpH, x11Req, fwd, hadFwd, refusedLast>>
 
-\* Transport.request_port_forward: tcpip-forward global request; handler installed only when granted
+\* Transport.request_port_forward: tcpip-forward global request answered by the server with REQUEST_SUCCESS
+\* (granted) or REQUEST_FAILURE; the handler is installed only when granted, a refused request raises and
+\* enables nothing - also when earlier requests on this transport succeeded
 \* (an unauthenticated client is always refused by the server)
 RequestPortForward(p, granted) ==
   /\ (granted => authed)
   /\ tcpH' = (tcpH \/ granted)
   /\ fwd' = IF granted THEN fwd \cup {p} ELSE fwd
   /\ hadFwd' = IF granted THEN hadFwd \cup {p} ELSE hadFwd
+  /\ refusedLast' = ~granted
   /\ last' = Obs("fwd", p, granted, NoReply, FALSE)
   /\ UNCHANGED <<authed, chan, x11H, agentH, x11Req, agentReq>>
 
@@ -86,7 +91,7 @@ RequestPortForward(p, granted) ==
 CancelPortForward(p) ==
   /\ tcpH' = FALSE
   /\ fwd' = fwd \ {p}
-  /\ hadFwd' = hadFwd
+  /\ hadFwd' = hadFwd /\ refusedLast' = FALSE
   /\ last' = Obs("cancel", p, FALSE, NoReply, FALSE)
   /\ UNCHANGED <<authed, chan, x11H, agentH, x11Req, agentReq>>
 
@@ -94,7 +99,7 @@ CancelPortForward(p) ==
 \* _parse_global_request, `if not self.server_mode: ok = False`
 GlobalRequest(kind, wantReply) ==
   /\ last' = Obs("global", kind, wantReply, IF wantReply THEN "REQUEST_FAILURE" ELSE NoReply, FALSE)
-  /\ UNCHANGED <<authed, chan, x11H, agentH, tcpH, x11Req, agentReq, fwd, hadFwd>>
+  /\ UNCHANGED <<authed, chan, x11H, agentH, tcpH, x11Req, agentReq, fwd, hadFwd, refusedLast>>
 
 HandlerFor(kind) == \/ (kind = AGENT /\ agentH)
                     \/ (kind = X11 /\ x11H)
@@ -103,7 +108,7 @@ HandlerFor(kind) == \/ (kind = AGENT /\ agentH)
 \* _parse_channel_open
 ChannelOpen(kind) ==
   /\ last' = Obs("open", kind, FALSE, IF HandlerFor(kind) THEN "OPEN_SUCCESS" ELSE "OPEN_FAILURE", HandlerFor(kind))
-  /\ UNCHANGED <<authed, chan, x11H, agentH, tcpH, x11Req, agentReq, fwd, hadFwd>>
+  /\ UNCHANGED <<authed, chan, x11H, agentH, tcpH, x11Req, agentReq, fwd, hadFwd, refusedLast>>
 
 Approved(type) == type \in Harmless \/ (ApproveExec /\ type = "exec")
 \* Channel._handle_request on a channel the client opened (server_object is None)
@@ -111,7 +116,7 @@ ChannelRequest(type, wantReply) ==
   /\ chan
   /\ last' = Obs("chanreq", type, wantReply,
                  IF ~wantReply THEN NoReply ELSE IF Approved(type) THEN "CHANNEL_SUCCESS" ELSE "CHANNEL_FAILURE", FALSE)
-  /\ UNCHANGED <<authed, chan, x11H, agentH, tcpH, x11Req, agentReq, fwd, hadFwd>>
+  /\ UNCHANGED <<authed, chan, x11H, agentH, tcpH, x11Req, agentReq, fwd, hadFwd, refusedLast>>
 
 ClientOp == \/ Authenticate \/ OpenSession \/ RequestAgent
             \/ \E g \in BOOLEAN : RequestX11(g)
